@@ -70,8 +70,72 @@ def monitor(ctx, case, rec):
                          {"graph": case["graph"], "edited": case["edited"], "edit": e})
 
 
+# hand-written near pairs (run first): each pair differs by one element's position / container
+CORPUS_LIB = {"pkg": "xvlib_c03c", "enums": [], "classes": [
+    {"name": "K", "xpmid": "xvlib_c03c.k", "parent": None, "kind": "config", "deprecated": False, "args": [
+        {"name": "ll", "decl": "param", "ty": {"list": {"list": "int"}}, "optional": False, "default": {"l": []}},
+        {"name": "ls", "decl": "param", "ty": {"list": "str"}, "optional": False, "default": {"l": []}},
+        {"name": "d", "decl": "param", "ty": {"dict": "str"}, "optional": False, "default": {"d": []}},
+        {"name": "dl", "decl": "param", "ty": {"dict": {"list": "int"}}, "optional": False, "default": {"d": []}},
+        {"name": "ld", "decl": "param", "ty": {"list": {"dict": "int"}}, "optional": False, "default": {"l": []}},
+        {"name": "x", "decl": "param", "ty": "str", "optional": False, "default": "x0"},
+        {"name": "y", "decl": "param", "ty": "str", "optional": False, "default": "y0"},
+        {"name": "lf", "decl": "param", "ty": {"list": "float"}, "optional": False, "default": {"l": []}},
+    ]}]}
+
+
+def _k(**kw):
+    return {"nodes": [{"cls": "K", "values": [[k, v] for k, v in kw.items()], "meta": None, "pre": [], "init": [], "task": None}]}
+
+
+def L(*xs):
+    return {"l": list(xs)}
+
+
+def D(**kw):
+    return {"d": [[k, v] for k, v in kw.items()]}
+
+
+CORPUS_PAIRS = [
+    ("move-between-neighbouring-lists", _k(ll=L(L(1), L(2, 3))), _k(ll=L(L(1, 2), L(3)))),
+    ("move-between-neighbouring-lists", _k(ll=L(L(), L(1))), _k(ll=L(L(1), L()))),
+    ("nesting-changed", _k(ll=L(L(1, 2))), _k(ll=L(L(1), L(2)))),
+    ("nesting-changed", _k(ll=L(L(), L())), _k(ll=L(L()))),
+    ("string-boundary", _k(ls=L("ab", "c")), _k(ls=L("a", "bc"))),
+    ("string-boundary", _k(ls=L("ab")), _k(ls=L("a", "b"))),
+    ("string-boundary", _k(x="ab", y="c"), _k(x="a", y="bc")),
+    ("key-value-boundary", _k(d=D(a="bc")), _k(d=D(ab="c"))),
+    ("key-value-boundary", _k(d=D(a="", b="c")), _k(d=D(a="b", c=""))),
+    ("dict-list-membership", _k(dl=D(a=L(1), b=L(2))), _k(dl=D(a=L(1, 2), b=L()))),
+    ("dict-list-membership", _k(dl=D(a=L(), b=L(1))), _k(dl=D(a=L(1), b=L()))),
+    ("list-dict-membership", _k(ld=L(D(a=1), D(b=2))), _k(ld=L(D(a=1, b=2), D()))),
+    ("list-dict-membership", _k(ld=L(D(), D(a=1))), _k(ld=L(D(a=1), D()))),
+    ("sibling-parameters", _k(x="v", y="w"), _k(x="w", y="v")),
+    ("list-order", _k(ls=L("a", "b")), _k(ls=L("b", "a"))),
+    ("list-length", _k(lf=L({"f": "0000000000000000"})), _k(lf=L({"f": "0000000000000000"}, {"f": "0000000000000000"}))),
+    ("empty-vs-default", _k(ls=L("")), _k(ls=L())),
+]
+
+
+def run_corpus(ctx):
+    cases = [{"lib": 0, "steps": id_steps(a, "A") + id_steps(b, "B")} for _, a, b in CORPUS_PAIRS]
+    res = identlib.run_cases(ctx, [CORPUS_LIB], cases, shards=2)[None]
+    good = []
+    for (kind, a, b), rec in zip(CORPUS_PAIRS, res):
+        if rec["error"]:
+            raise RuntimeError(f"corpus pair cannot be built: {rec['error']}")
+        fa, ra, fb, rb = ids_of(rec, 1, 1)
+        ctx.case({"corpus": kind, "a": a, "b": b}, True)
+        ctx.count("corpus", kind)
+        if fa[0] == fb[0] or ra[0] == rb[0]:
+            ctx.monitor_fail(f"collision:{kind}", f"{a['nodes'][0]['values']} and {b['nodes'][0]['values']} share identifier {fa[0][:16]}…", {"a": a, "b": b})
+        good.append(({"graph": a, "edit": {"kind": kind}}, rec))
+    return good
+
+
 def correspond(ctx):
     rng = ctx.rng
+    corpus_good = run_corpus(ctx)
     ctx.rule = ("near pairs: graph and its image under one signature-changing edit (scalar changed, list append/drop/swap, element moved between neighbouring "
                 "lists, dict key renamed / item added / dropped / moved between sibling dicts, sibling parameters swapped, enum member, unset optional set, "
                 "pre-task added, init tasks permuted, producing task changed, type identifier changed); non-trivial = edit inside a container or at a "
@@ -90,6 +154,7 @@ def correspond(ctx):
         good.append((case, rec))
     if len(good) < len(cases) * 0.9:
         raise RuntimeError(f"too many unbuildable cases: {next(r['error'] for r in res if r['error'])}")
+    good = corpus_good + good
     try:
         mouts = identlib.model_outputs(ctx, [r for _, r in good])
     except Exception as e:
@@ -104,6 +169,7 @@ def correspond(ctx):
 
 
 def search(ctx):
+    run_corpus(ctx)
     rng = random.Random(f"search-{ctx.seed}")
     libs, cases = gen(ctx, rng, ctx.scale(8, 30), 100, "c03s")
     res = identlib.run_cases(ctx, libs, [{"lib": c["lib"], "steps": c["steps"]} for c in cases], shards=12)[None]
